@@ -69,4 +69,28 @@ PROPS = {
         ],
         "explanation": "SymbolMap operations and the global-slot recycler's bytecode scan under contract; sequences bounded (maps/sets are loop-based models)",
     },
+    "C04": {
+        "units": ["heap"],
+        "trusted_base": COMMON_TB + [
+            "units/heap/prelude.rs: StandardShared=Arc / WeakShared=Weak (as crate::gc defines them for `sync`), MutContainer as RefCell with read()/write(), reduced SteelVal, channel stubs, log no-op",
+            "std Arc/Weak/RefCell/Vec are executed as compiled by Kani",
+        ],
+        "assumptions": [
+            "root enumeration (Heap::mark, enumerate_stacks), the 36 visit_* arms, the parallel marker, continuations/handlers/host roots are NOT covered: only the free-list accounting and mark-bit protocol are decided",
+            "free lists of at most 3 slots; the growth path inside allocate (EXTEND_CHUNK = 25600 slots) is out of CBMC's reach: allocate is proved for `a free slot remains`, grow_by separately",
+        ],
+        "explanation": "free-list allocate / weak collection / recount / grow and the mark-bit protocol under contract (bounded sizes)",
+    },
+    "C19": {
+        "units": ["heap"],
+        "trusted_base": COMMON_TB + [
+            "units/heap/prelude.rs: StandardShared=Arc / WeakShared=Weak (as crate::gc defines them for `sync`), MutContainer as RefCell with read()/write(), reduced SteelVal, channel stubs, log no-op",
+            "std Arc/Weak/RefCell/Vec are executed as compiled by Kani",
+        ],
+        "assumptions": [
+            "'eventually' (liveness) and memory boundedness of whole programs are NOT decided; only: unreferenced slots are freed by a weak collection, counts are exact after recount, marks are reset, cycles terminate marking",
+            "free lists of at most 3 slots",
+        ],
+        "explanation": "reclamation side of the same free-list contracts",
+    },
 }
